@@ -130,6 +130,13 @@ def make_grammars(seed, tier):
             t = genrun.G("gk_" + nm + "n", strip_memo(text), meta=dict(meta, twin_of="gk_" + nm, twin="nomemo", memo=False))
             t.gg = None
             gs.append(t)
+        ipath = path[:-5] + ".inlined"
+        if os.path.exists(ipath):
+            # the same grammar with every `>Rule` replaced by hand by the parenthesised body (C13)
+            meta["include"] = True
+            t = genrun.G("gk_" + nm + "i", open(ipath, encoding="utf-8").read(), meta=dict(meta, twin_of="gk_" + nm, twin="inlined"))
+            t.gg = None
+            gs.append(t)
     return gs
 
 
